@@ -26,7 +26,7 @@ def generate(X):
 
     class ScanTr(X.MachTr):
         def special(self, e):
-            if e[0] == "call" and e[1][0] == "path" and len(e[1][1]) == 1 and e[1][1][0] in ("index_words", "len_words", "scan_words", "any_nonzero_below", "last_word", "sum_count_ones", "sum_count_zeros", "all_zero_below"):
+            if e[0] == "call" and e[1][0] == "path" and len(e[1][1]) == 1 and e[1][1][0] in ("index_words", "len_words", "scan_words", "any_nonzero_below", "last_word", "sum_count_ones", "sum_count_zeros", "all_zero_below", "tz_shifted_words"):
                 return e[1][1][0]
             if e[0] == "mcall" and e[2] in ("trailing_zeros", "trailing_ones", "is_power_of_two") and not e[3]:
                 return e[2]
@@ -36,7 +36,7 @@ def generate(X):
             s = self.special(e)
             if s in ("index_words", "last_word"):
                 return "W"
-            if s in ("len_words", "scan_words", "sum_count_ones", "sum_count_zeros"):
+            if s in ("len_words", "scan_words", "sum_count_ones", "sum_count_zeros", "tz_shifted_words"):
                 return "U"
             if s in ("trailing_zeros", "trailing_ones"):
                 return "32"
@@ -60,6 +60,10 @@ def generate(X):
                 return t, "W"
             if s == "len_words":
                 return "words.length", "U"
+            if s == "tz_shifted_words":
+                t = self.fresh()          # `trailing_zeros_large_shifted_by_one(words)`: the regenerated scan above (`none` = its panic)
+                lines.append("%slet %s ← trailing_zeros_large_shifted_by_one W U words" % (ind, t))
+                return t, "U"
             if s == "scan_words":
                 c, wc = self.ex(e[2][0], env, lines, ind, "W")
                 self.unify(wc, "W", "scanned word value")
@@ -177,10 +181,13 @@ def generate(X):
         body = re.sub(r"\bwords\[\.\.([^\[\]]+?)\]\.iter\(\)\.all\(\|x\|\s*\*x\s*==\s*0\)", r"all_zero_below(\1)", body)
         if ret == "Option<usize>":
             m_ = re.search(r"\bSome\(", body)
-            if not m_ or len(re.findall(r"\bSome\(", body)) != 1 or re.search(r"\bNone\b", body):
+            if not m_ or (len(re.findall(r"\bSome\(", body)) != 1 and name != "trailing_ones_neg_large") or re.search(r"\bNone\b", body):
                 raise X.ExtractError("%s: the arm no longer returns exactly one `Some(e)`" % what)
-            q_ = X.balanced(body, m_.end() - 1, "(", ")")
-            body = body[:m_.start()] + "(" + body[m_.end():q_ - 1] + ")" + body[q_:]
+            while m_:           # (trailing_ones_neg: `Some(e)` in both branches of the `if`; every result is `Some`, none is `None`)
+                q_ = X.balanced(body, m_.end() - 1, "(", ")")
+                body = body[:m_.start()] + "(" + body[m_.end():q_ - 1] + ")" + body[q_:]
+                m_ = re.search(r"\bSome\(", body)
+        body = re.sub(r"\btrailing_zeros_large_shifted_by_one\(words\)", "tz_shifted_words()", body)
         body = re.sub(r"\bwords\.last\(\)\.unwrap\(\)", "last_word()", body)
         body = re.sub(r"\bwords\.len\(\)", "len_words()", body)
         body = re.sub(r"\bwords\[([^\[\]]+)\]", r"index_words(\1)", body)
@@ -275,5 +282,8 @@ def generate(X):
     one("count_ones_large", ret="usize", arm=("count_ones", REF))
     one("count_zeros_large", ret="Option<usize>", arm=("count_zeros", REF))
     one("is_power_of_two_large", ret="bool", arm=("is_power_of_two", REF))
+    # round 6: the `RefLarge` arm of `TypedReprRef::trailing_ones_neg` (IBig::trailing_ones of a negative heap value): the CHECKED `words[0]`, the
+    # parity test, the call of the regenerated shifted scan and the checked `+ 1`
+    one("trailing_ones_neg_large", ret="Option<usize>", arm=("trailing_ones_neg", REF))
     out.append("end Dashu.Gen.BitScans")
     return "\n".join(out) + "\n", info
